@@ -348,6 +348,7 @@ func c07build(c GCase) *c07graph {
 		MemoExpr:    c.MemoExpr,
 		ShareLeaves: true,
 		ShareExprs:  shareExprs,
+		UserAnyTop:  run.Hash(c.G.String())%3 == 1, // a third: memoized Any bodies run by a hand-written alternative combinator
 		// a fifth of the grammars use a hand-written terminal with a node type of its own (not the ones with a RightTrim:
 		// the K1 signature is defined on the library's own node types)
 		UserLeaves: run.Hash(c.G.String())%5 == 1 && len(rtrimOperand) == 0,
